@@ -94,10 +94,26 @@ func c12fHistory(t *rapid.T) []c12fStep {
 				}
 				cut := len(b) / 2
 				r2 := doReq(h, "PATCH", r.hdr.Get("Location"), b[:cut], hdr("Content-Range", fmt.Sprintf("0-%d", cut-1)))
-				if r2.code != 202 {
+				loc := r2.hdr.Get("Location")
+				if r2.code >= 500 {
+					// a client that resumes: ask the session how far it got and go on from there
+					g := doReq(h, "GET", sessionPath(r.hdr.Get("Location")), nil, nil)
+					var from, to int
+					if g.code != 204 {
+						return fmt.Sprintf("202/%d/status %d", r2.code, g.code)
+					}
+					if n, _ := fmt.Sscanf(g.hdr.Get("Range"), "%d-%d", &from, &to); n == 2 && to+1 <= len(b) && to >= 0 {
+						cut = to + 1
+					} else {
+						cut = 0
+					}
+					loc = g.hdr.Get("Location")
+					if loc == "" {
+						return fmt.Sprintf("202/%d/status without location", r2.code)
+					}
+				} else if r2.code != 202 {
 					return fmt.Sprintf("202/%d", r2.code)
 				}
-				loc := r2.hdr.Get("Location")
 				sep := "?"
 				if strings.Contains(loc, "?") {
 					sep = "&"
@@ -392,6 +408,7 @@ func c12fProperty(t *rapid.T, st *Stats) {
 		vfs.FailReadAt(k)
 	} else {
 		vfs.FailAt(k)
+		vfs.FailShort(rapid.Bool().Draw(t, "shortWrite")) // a failing write may have taken half of its buffer
 	}
 	h := olareg.New(c12fConf(root))
 	trace = append(trace, fmt.Sprintf("%d mutating and %d reading file-system calls without fault; fault at %s call %d (second at %d)", total, totalReads, map[bool]string{true: "reading", false: "mutating"}[readFault], k, k2))
